@@ -11,9 +11,9 @@ CONSTANTS
   MaxLocal = 3
   MaxInbound = 2
   MaxTime = 0
+  Faults = TRUE
   UseFourth = TRUE
   SetIdxs = {0, 1, 2, 3}
   TimeSteps = {30, 270, 300, 3600}
   GenDepth = 14
-CONSTRAINT Emit
 CHECK_DEADLOCK FALSE
